@@ -43,8 +43,8 @@
 #ifndef MAXCONC
 #define MAXCONC 2
 #endif
-#define MAXT 8
-#define MAXB 8
+#define MAXT 12
+#define MAXB 12
 typedef struct S_class_tbb__detail__d1__task task_t;
 typedef struct S_class_tbb__detail__d1__task_group_context ctx_t;
 typedef struct S_struct_tbb__detail__d1__execution_data ed_t;
